@@ -350,7 +350,7 @@ class Solver:
             )
 
         new_ode_options, extra_options = self._parse_options(
-            new_ode_options, integrator.integrator_options, self.options
+            new_ode_options, integrator.integrator_options, old_ode_options
         )
         if extra_options:
             raise KeyError(f"Options {extra_options.keys()} are not supported")
